@@ -347,7 +347,19 @@ def extract_emissions():
     extend = phases(ext_if[0].body, "range(n_simulation_saved, n_sims)")
     if ext_if[0].orelse:
         raise ExtractError(f"{path}:{ext_if[0].lineno}: unexpected else of the add-simulations block")
-    return {"path": path, "emisRegen": regen, "emisExtend": extend}
+    def gen_args(stmts, what):
+        calls = [n for s0 in stmts if isinstance(s0, ast.For) for n in ast.walk(s0)
+                 if isinstance(n, ast.Call) and isinstance(n.func, ast.Attribute) and n.func.attr == "generate_emissions"]
+        if len(calls) != 1:
+            raise ExtractError(f"{path}: {len(calls)} generate_emissions calls in the {what} loop")
+        c = calls[0]
+        if c.args:
+            raise ExtractError(f"{path}:{c.lineno}: positional arguments in a generate_emissions call")
+        return sorted((f"{k.arg}={ast.unparse(k.value)}", c.lineno) for k in c.keywords)
+
+    return {"path": path, "emisRegen": regen, "emisExtend": extend,
+            "genArgsRegen": gen_args(outer.body, "regenerate-all"),
+            "genArgsExtend": gen_args(ext_if[0].body, "add-simulations")}
 
 
 def extract_preseed():
@@ -636,6 +648,8 @@ def render(t):
         "  tsWrites := [" + ", ".join(f".{f}" for f, _ in t["tsWrites"]) + "]",
         "  tsExact := " + ("true" if t["tsExact"][0] else "false"),
         "  seedRestart := " + ("true" if t["seedRestart"][0] else "false"),
+        "  extendSameArgs := " + ("true" if [a for a, _ in t["genArgsRegen"]] == [a for a, _ in t["genArgsExtend"]]
+                                  else "false"),
         "  hashWholeFile := " + ("true" if t["hashWholeFile"][0] else "false"),
         "  vwKeysRemoved := " + ("true" if any(r[0] == "vw" for r in t["removedKeys"]) else "false"),
         "  progKeysRemoved := " + ("true" if any(r[0] == "prog" for r in t["removedKeys"]) else "false"),
@@ -646,6 +660,10 @@ def render(t):
         "/-- state surviving between runs in one interpreter (module / class level containers, memoising",
         "decorators, mutable defaults, copy hooks) in the initialisation modules and the pickled classes -/",
         "def hiddenState : List String := [" + ", ".join(f'"{x}"' for x, _ in t["hiddenState"]) + "]",
+        "/-- keyword arguments handed to Infrastructure.generate_emissions by the regenerate-all loop and by the",
+        "add-simulations loop of initialize_emissions -/",
+        "def genArgsRegen : List String := [" + ", ".join(f'"{a}"' for a, _ in t["genArgsRegen"]) + "]",
+        "def genArgsExtend : List String := [" + ", ".join(f'"{a}"' for a, _ in t["genArgsExtend"]) + "]",
         "/-- (dictionary, statement) removing a key from the virtual-world / program dictionaries between",
         "parameter intake and hash_dict -/",
         "def removedKeys : List (String × String) := ["
